@@ -12,7 +12,6 @@ import (
 	"bytes"
 	"fmt"
 	"runtime"
-	"runtime/debug"
 	"sort"
 	"syscall"
 	"testing"
@@ -256,7 +255,6 @@ func c06Run(r *vlib.Run, c c06Case) {
 		if c.Z > 1024 || c.O > 1<<20 || c.W > 1<<20 || c.A > 1<<20 {
 			mem = Memory{}
 			runtime.GC()
-			debug.FreeOSMemory()
 		}
 	}()
 	oLenDecl := uint64(0)
